@@ -8,8 +8,25 @@ import (
 
 // -0.0 == 0.0 as a map key yet 1/x tells them apart: don't memoize calls with a negative zero argument.
 func negativeZero(v object.Object) bool {
-	f, ok := v.(object.Float)
-	return ok && f.Value == 0 && math.Signbit(f.Value)
+	switch v.Type() {
+	case object.FLOAT:
+		f, ok := v.(object.Float)
+		return ok && f.Value == 0 && math.Signbit(f.Value)
+	case object.ARRAY:
+		for _, e := range object.Elements(v) {
+			if negativeZero(e) {
+				return true
+			}
+		}
+	case object.MAP:
+		m := v.(object.Map)
+		for _, k := range object.Elements(v) {
+			if val, _ := m.Get(k); negativeZero(k) || negativeZero(val) {
+				return true
+			}
+		}
+	}
+	return false
 }
 
 const MaxArgs = 4
